@@ -46,6 +46,7 @@ class Site:
     src: str                  # unparsed source expression
     bound: dict[str, ast.expr]
     proj: dict[str, str] = field(default_factory=dict)   # param -> projected field of src
+    foreign: dict[str, tuple[str, str]] = field(default_factory=dict)   # param -> (other source, field): same-kind field taken from another value
 
     @property
     def key(self) -> str:
@@ -132,9 +133,11 @@ def scan(m: core.Mod) -> list[Site]:
         if not by_src:
             continue
         src, proj = max(by_src.items(), key=lambda kv: len(kv[1]))
-        if len(proj) < 3:
+        total = sum(len(v) for v in by_src.values())
+        if len(proj) < 3 and not (len(proj) == 2 and total >= 3):
             continue
-        sites.append(Site(m, f"{cls + '.' if cls else ''}{fn}", call, kind, name, src, bound, proj))
+        foreign = {p: (s2, f) for s2, pr in by_src.items() if s2 != src for p, f in pr.items()}
+        sites.append(Site(m, f"{cls + '.' if cls else ''}{fn}", call, kind, name, src, bound, proj, foreign))
     return sites
 
 
@@ -185,6 +188,12 @@ def check_site(ctx, s: Site, rule: str = "RECON", drops: dict | None = None,
             ok = s.src in pendulum_receivers
             ctx.ob(f"{rule}.lossless", f"{s.key}/{p}", ok,
                    f"{p}={s.src}.{f} narrows the tzinfo (None for a foreign tzinfo); use {s.src}.tzinfo", s.loc)
+    # (i') one source: a field of the same group taken from another value rebuilds a value that never existed
+    for p, (s2, f) in s.foreign.items():
+        grp = DATE_F if p in DATE_F else TIME_F if p in TIME_F else None
+        if grp is not None and any(q in grp for q in s.proj):
+            ctx.ob(f"{rule}.source", f"{s.key}/{p}", False,
+                   f"parameter {p} receives {s2}.{f} while the other {'/'.join(grp)} fields are copied from {s.src}", s.loc)
     # (ii) no gap inside a field group
     projected = set(s.proj.values())
     for grp in (DATE_F, TIME_F):
